@@ -13,9 +13,9 @@ from ..harness import Violation
 
 ID = "C13"
 LEVEL = "exploration"
-RULE = ("Complete enumeration of all histories up to length 3 (quick) / 4 (thorough, plus all length-5 histories over the 15 core letters of the property's quantifier, plus Hypothesis-sampled histories of length 5..30) over the 24-letter alphabet "
+RULE = ("Complete enumeration of all histories up to length 3 (quick) / 4 (thorough, plus all length-5 histories over the 15 core letters of the property's quantifier, plus Hypothesis-sampled histories of length 5..30) over the 26-letter alphabet "
         "{connect-ok (also with a device announcing maxdata 0), creating a streaming_shell generator and consuming it later, connect-fail in {transport refuses, AUTH without keys, invalid challenge, silent device, public key answered by another challenge instead of CNXN}, close, close whose transport.close() raises, exec_out, root, shell, streaming_shell, reboot, list, stat, pull, push, "
-        "and list/stat/pull/push with an empty device path}, for AdbDevice and AdbDeviceAsync. Oracle = two-state model: `available` equals the model after every step and is False when observed "
+        "and list/stat/pull/push (BytesIO, file and directory sources) with an empty device path}, for AdbDevice and AdbDeviceAsync. Oracle = two-state model: `available` equals the model after every step and is False when observed "
         "from inside transport.connect() of a running attempt; a disconnected operation raises AdbConnectionError (DevicePathInvalidError for an empty path; either when both apply) without a single "
         "transport write and without creating the pull destination; a connected operation is served by the simulator, returns the model's value and never raises AdbConnectionError. "
         "Non-trivial: history contains a failed connect or a close followed by an operation. Distinct = (history, api).")
@@ -38,6 +38,9 @@ OPS = {
     "stat-empty": {"op": "stat", "path": ""},
     "pull-empty": {"op": "pull", "path": "", "dest": "file"},
     "push-empty": {"op": "push", "src": {"kind": "bytesio", "content": b"data"}, "path": "", "mtime": 5},
+    # the same with a local file and a local directory as the source (for a directory the per-file destinations '<path>/<name>' are not empty; the given path is)
+    "pushfile-empty": {"op": "push", "src": {"kind": "file", "content": b"data"}, "path": "", "mtime": 5},
+    "pushdir-empty": {"op": "push", "src": {"kind": "dir", "files": [("a.txt", b"aaa"), ("b", b"")]}, "path": "", "mtime": 5},
 }
 CONNECTS = ["connect-ok", "connect-ok-maxdata0", "connect-refused", "connect-nokeys", "connect-badchallenge", "connect-silent", "connect-rechallenged"]
 ALPHABET = CONNECTS + ["close", "close-fails", "stream-create", "stream-consume"] + sorted(OPS)
